@@ -384,6 +384,10 @@ impl Solo {
                 if self.w.want_close {
                     return;
                 }
+                // a CONNACK that no CONNECT asked for is outside every statement
+                if self.cfg.as_client && self.w.m.st == St::Disc && !self.cfg.lenient {
+                    return;
+                }
                 let p = self.cfg.connack_pkt(*sp, *rc);
                 let was = self.w.m.st;
                 if self.cfg.as_client {
@@ -535,7 +539,8 @@ impl Solo {
                 self.app_send(&Pkt::new(v, PUBREL).with_id(id));
             }
             Op::PeerPub { qos, id, dup, topic, alias, pad } => {
-                if self.w.m.st == St::Disc {
+                // a server never sends before its CONNACK; a client may pipeline after CONNECT
+                if self.w.m.st == St::Disc || (self.cfg.as_client && self.w.m.st != St::Connected && !self.cfg.lenient) {
                     return;
                 }
                 let mut p = Pkt::new(v, PUBLISH);
@@ -563,7 +568,7 @@ impl Solo {
                 self.peer_send(&p);
             }
             Op::PeerPubrel { id } => {
-                if self.w.m.st == St::Disc {
+                if self.w.m.st == St::Disc || (self.cfg.as_client && self.w.m.st != St::Connected && !self.cfg.lenient) {
                     return;
                 }
                 self.peer_q2.retain(|x| x != id);
